@@ -209,23 +209,30 @@ Lemma fold_left_map' {A B C} (f : A -> B -> A) (h : C -> B) l a :
   fold_left f (map h l) a = fold_left (fun a x => f a (h x)) l a.
 Proof. revert a; induction l as [|x l IH]; intros a; simpl; [reflexivity|]. apply IH. Qed.
 
+Lemma tm_sample_window m f p off : valid_mode m -> shape_ok (shape f) ->
+  tm_sample m f p off = window_sample m f p off.
+Proof.
+  intros Hm Hs. unfold tm_sample, window_sample, retrieve. rewrite fixpos_border by auto.
+  destruct (border_pos m (shape f) (padd p off)); reflexivity.
+Qed.
+
 Theorem tm_at_spec ty m f t p : wf_ity ty -> valid_mode m -> shape_ok (shape f) ->
   (* no intermediate overflow: every absolute difference and the total are representable *)
-  (forall k q, In k (all_positions (shape t)) ->
-      border_pos m (shape f) (padd p (psub k (centre (shape t)))) = Some q -> Z.abs (aget f q - aget t k) <= tmax ty) ->
+  (forall k v, In k (all_positions (shape t)) ->
+      window_sample m f p (psub k (centre (shape t))) = Some v -> Z.abs (v - aget t k) <= tmax ty) ->
   ssd_spec m f t p <= tmax ty ->
   tm_at (DInt ty) m f t p = ssd_spec m f t p.
 Proof.
   intros W Hm Hs Hd Hb. unfold tm_at, ssd_spec in *. rewrite entries_false_all.
   pose proof (tmin_le0 ty W) as T0.
-  set (g := fun k => match border_pos m (shape f) (padd p (psub k (centre (shape t)))) with
-                     | Some q => Some ((aget f q - aget t k) * (aget f q - aget t k)) | None => None end).
+  set (g := fun k => match window_sample m f p (psub k (centre (shape t))) with
+                     | Some v => Some ((v - aget t k) * (v - aget t k)) | None => None end).
   transitivity (fold_left (fun a k => match g k with Some x => wrap ty (a + x) | None => a end) (all_positions (shape t)) 0).
   - rewrite fold_left_map'.
     assert (G : forall l a,
-      (forall k q, In k l -> border_pos m (shape f) (padd p (psub k (centre (shape t)))) = Some q ->
-                   Z.abs (aget f q - aget t k) <= tmax ty) ->
-      fold_left (fun a0 x => match retrieve m f p (fst (psub x (centre (shape t)), aget t x)) with
+      (forall k v, In k l -> window_sample m f p (psub k (centre (shape t))) = Some v ->
+                   Z.abs (v - aget t k) <= tmax ty) ->
+      fold_left (fun a0 x => match tm_sample m f p (fst (psub x (centre (shape t)), aget t x)) with
                    | Some v => let tj := snd (psub x (centre (shape t)), aget t x) in
                                let delta := wrapd (DInt ty) (if v >? tj then v - tj else tj - v) in
                                wrapd (DInt ty) (a0 + delta * delta)
@@ -233,17 +240,25 @@ Proof.
       = fold_left (fun a k => match g k with Some x => wrap ty (a + x) | None => a end) l a).
     { induction l as [|k l IH]; intros a Hl; [reflexivity|].
       cbn [fold_left]. rewrite <- IH by (intros; eapply Hl; simpl; eauto). f_equal.
-      unfold retrieve, g. rewrite fixpos_border by auto. cbn [fst snd].
-      destruct (border_pos m (shape f) (padd p (psub k (centre (shape t))))) as [q|] eqn:E; [|reflexivity].
-      specialize (Hl k q (or_introl eq_refl) E). cbn [wrapd]. cbv zeta.
-      destruct (aget f q >? aget t k) eqn:C;
+      unfold g. rewrite tm_sample_window by auto. cbn [fst snd].
+      destruct (window_sample m f p (psub k (centre (shape t)))) as [v|] eqn:E; [|reflexivity].
+      specialize (Hl k v (or_introl eq_refl) E). cbn [wrapd]. cbv zeta.
+      destruct (v >? aget t k) eqn:C;
         (rewrite (wrap_id ty (_ - _)) by (auto; unfold in_range; lia)); f_equal; nia. }
     apply G. exact Hd.
   - rewrite fold_wrap_sum_opt; auto; try lia.
-    + rewrite Z.add_0_l. f_equal. apply map_ext. intros k. unfold g. destruct (border_pos _ _ _); reflexivity.
-    + intros k x _. unfold g. destruct (border_pos _ _ _); [|discriminate]. intros E; apply some_inj in E. subst x. apply Z.square_nonneg.
-    + rewrite Z.add_0_l. erewrite map_ext; [exact Hb|]. intros k. unfold g. destruct (border_pos _ _ _); reflexivity.
+    + rewrite Z.add_0_l. f_equal. apply map_ext. intros k. unfold g. destruct (window_sample _ _ _ _); reflexivity.
+    + intros k x _. unfold g. destruct (window_sample _ _ _ _); [|discriminate]. intros E; apply some_inj in E. subst x. apply Z.square_nonneg.
+    + rewrite Z.add_0_l. erewrite map_ext; [exact Hb|]. intros k. unfold g. destruct (window_sample _ _ _ _); reflexivity.
 Qed.
+
+(* constant mode pads the window with 0: a template hanging over the edge is charged the squares of its own entries there *)
+Example ssd_constant_pads_with_zero :
+  let f := {| shape := [3]; data := [1; 2; 3] |} in let t := {| shape := [3]; data := [2; 2; 2] |} in
+  map (ssd_spec M_constant f t) (all_positions (shape f)) = [4 + 1 + 0; 1 + 0 + 1; 0 + 1 + 4]
+  /\ map (ssd_spec M_ignore f t) (all_positions (shape f)) = [1 + 0; 1 + 0 + 1; 0 + 1]
+  /\ template_match (DInt {| bits := 8; signed := false |}) ExtendConstant f t = [5; 2; 5].
+Proof. vm_compute. repeat split; reflexivity. Qed.
 
 (* ---------- find2d ---------- *)
 Theorem find2d_marks_iff_occurs f t y x : shape f = [nthZ 0 (shape f) 0; nthZ 0 (shape f) 1] ->
